@@ -13,10 +13,10 @@ import (
 )
 
 type Step struct {
-	Op   string `json:"op"`            // put delete get rotate reopen
-	Key  int    `json:"key"`           // index into Keys; -1 = nil key (empty string in the string flavour)
-	VNil bool   `json:"vnil,omitempty"`  // nil value (empty string in the string flavour)
-	VLen int    `json:"vlen,omitempty"`  // 0 = empty non-nil value
+	Op   string `json:"op"`             // put delete get rotate reopen
+	Key  int    `json:"key"`            // index into Keys; -1 = nil key (empty string in the string flavour)
+	VNil bool   `json:"vnil,omitempty"` // nil value (empty string in the string flavour)
+	VLen int    `json:"vlen,omitempty"` // 0 = empty non-nil value
 }
 
 type Case struct {
@@ -107,14 +107,14 @@ func classify(err error) string {
 }
 
 type runner struct {
-	c      Case
-	bytes  bool
-	dir    string
-	db     *simpledb.DB
-	model  map[string][]byte
-	gidx   int
-	opts   sdb.Opts
-	sawRej bool
+	c                                         Case
+	bytes                                     bool
+	dir                                       string
+	db                                        *simpledb.DB
+	model                                     map[string][]byte
+	gidx                                      int
+	opts                                      sdb.Opts
+	sawRej                                    bool
 	okAfterRej, flushAfterRej, reopenAfterRej bool
 }
 
